@@ -22,7 +22,7 @@ if [ "$repo" != "/repo" ]; then
 fi
 if [ -f "checks/$lc/REWRITE" ]; then
   go build -o bin/rewrite ./engine/rewrite/cmd || exit 2
-  bin/rewrite -out "scratch/$tag" $(grep -v '^#' "checks/$lc/REWRITE" | sed "s|^/repo|$repo|") >/dev/null || exit 2
+  bin/rewrite $(grep '^-' "checks/$lc/REWRITE") -out "scratch/$tag" $(grep -v '^[#-]' "checks/$lc/REWRITE" | sed "s|^/repo|$repo|") >/dev/null || exit 2
   args+=(-overlay "scratch/$tag/overlay.json")
 fi
 go build "${args[@]}" -o "$out" "./checks/$lc"
